@@ -121,3 +121,12 @@ claim("C26", "model_checking", "TLA+ spec of writer/chunked channel/reader (TLC 
       "Trusted: TLC, the chunking transport, reflection-based fill. Framing/order/dispatch are decided by the spec; field fidelity is an identity check on the fill patterns "
       "(level: exploration for that part). Malformed headers are not driven.",
       "DESIGN.md section 4 C26")
+
+claim("C06", "model_checking", "TLA+ call-graph model with reachability fixed point and the marking pass transcribed (TLC, all graphs on N functions) + every graph rendered as WAT, stripped by the real pass, validated and executed before/after",
+      "WatStrip.tla: functions 1..N (function 1 optionally imported), every call relation, four placements of a call site (top level, in a block, in an else arm, after an "
+      "unconditional return), exported functions, table entries reached by call_indirect, optional start function. TLC checks that DoPass's marking (transcribed as a "
+      "worklist machine) computes the reachability fixed point and emits each graph with the set to keep and the value every root returns. The harness renders each graph as "
+      "a WAT module, runs watstrip.WatStrip, and requires: retained functions = the fixed point exactly, the stripped text assembles, and exports / table entries / the start "
+      "effect return the same values before and after on the embedded engine (and the values the spec computes).",
+      "Trusted: TLC, the renderer, wazero (interpreter) as executor. n = 3 (quick, 17k modules) / 4 (thorough). Not driven: re-exported imports, standalone export fields, ref.func.",
+      "DESIGN.md section 4 C06")
